@@ -106,9 +106,12 @@ class ModelStructure:
       comb = model_fisher(self.p[name])
       self.comb[name] = comb
       rep = model_fisher([self.repeat] * len(self.p[name]))
-      for a, b in ((comb, self.fail), (comb, rep)):
-        if a != b and abs(a - b) <= 1e-9 * max(abs(a), abs(b)):
-          self.near_tie = True
+      if len(self.p[name]) >= 2:
+        # Fisher combinations are floating-point results: a difference of a
+        # few ulp to a threshold is not decidable; single p-values are exact
+        for a, b in ((comb, self.fail), (comb, rep)):
+          if a != b and abs(a - b) <= 1e-9 * max(abs(a), abs(b)):
+            self.near_tie = True
       if comb < self.fail:
         self.state[name] = 'FAILED'
       elif rep < comb:
